@@ -17,6 +17,7 @@ KINDS = {
     "C08": {"batch_too_big", "batch_commit_order", "commit_before_send_return", "batch_commit_twice",
             "resend_after_done", "added_not_committed_once", "batch_bytes_exceeded", "batch_stale", "parent_sent", "deliverable_event_not_sent",
             "not_idle", "unaccounted"},       # an added event that is never committed
+    "C15": {"unaccounted", "not_idle", "panic"},      # a line of a run that never comes out (stream-level windows under a join-like action)
     "C19": {"deliverable_event_not_sent", "parent_sent", "payload_of_other_event"},
     "C09": {"gave_up_without_events", "payload_of_other_event", "pause_too_short", "gave_up_early", "gave_up_unlimited", "onerror_twice", "failed_twice", "fail_without_dq",
             "commit_of_dead_queued", "exhausted_not_dq_only", "exhausted_not_main_once",
@@ -117,6 +118,12 @@ def window_scenarios(ctx, n, start_run):
         run = start_run + k
         nev = ctx.rng.randint(2, 5)
         lines = [dict(id=i + 1, src=1, stream="a", cls=("H" if i == 0 else ctx.rng.choice(["C", "C", "P", "H"]))) for i in range(nev)]
+        if k % 2 == 1:
+            # the stream has already seen one or two time-outs earlier in its life (StreamProto: the queue length counter must not
+            # be what tryUnblock looks at): H, time-out, H, [time-out, H,] then the window
+            pre = ctx.rng.choice([1, 2])
+            lines = [dict(id=1, src=1, stream="a", cls="H")] + [dict(id=i + 2, src=1, stream="a", cls="H", wait_ms=-1) for i in range(pre)] + \
+                    [dict(id=pre + 2 + i, src=1, stream="a", cls=ctx.rng.choice(["C", "P"])) for i in range(ctx.rng.randint(1, 3))]
         out.append(base(run, name="window-unblock-%d" % run, mode="random", window="unblock", cap=8, workers=1, batch=1, timeout_ms=3,
                         lines=lines, jitter=False, single=ctx.rng.random() < 0.5))
     return out
@@ -333,7 +340,10 @@ def execute_and_validate(ctx, pid, scenarios, par=8):
     shapes = shape_keys(trace)
     if isinstance(ctx.nontrivial, int):
         ctx.nontrivial = set()
-    ctx.nontrivial |= shapes
+    if isinstance(ctx.nontrivial, int):
+        ctx.nontrivial += len(shapes)
+    else:
+        ctx.nontrivial |= shapes
     return viol
 
 
